@@ -165,11 +165,71 @@ pub fn run(p: &VqParams, sc: &str) -> VqOutcome {
     let max_bufs = std::cmp::min(p.n + 1, 6);
     let wrap = p.mode == "wrap";
 
+    let notify_mode = p.mode == "notify";
+    // fast-forward bases for the notify mode: the interesting places of the 16-bit index space
+    let bases: [u16; 6] = [65530, 32764, 65533, 16382, 65535, 49150];
+    let mut next_base = 0usize;
     let mut i = 0usize;
     while i < p.ops {
+        if notify_mode && i % 250 == 0 && next_base < bases.len() {
+            // quiesce (logged), then fast-forward the real queue without logging
+            sched.borrow_mut().drain();
+            let toks: Vec<u16> = held.keys().copied().collect();
+            let mut order: Vec<u16> = vec![];
+            // pop in used-ring order: peek tells which token is next
+            for _ in 0..toks.len() {
+                if let Some(t) = queue.peek_used() { order.push(t); } else { break; }
+                let t = *order.last().unwrap();
+                let Some(mut sub) = held.remove(&t) else { with_world(|w| { for (_, l) in w.qtrace.iter().rev().take(60).rev() { eprintln!("{}", &l[..l.len().min(200)]); } }); panic!("device completed {t} but caller holds {:?} (i={i})", held.keys().collect::<Vec<_>>()) };
+                let pre = out_digest(&sub.outs);
+                with_world(|w| {
+                    w.cur_q = Some(q);
+                    w.cur_bufs = sub.ins.iter().map(|b| (b.as_ptr() as usize, b.len())).chain(sub.outs.iter().map(|b| (b.as_ptr() as usize, b.len()))).collect();
+                    w.qev(q, json!({"e":"PopCall","tok":t,"outdg":pre}));
+                });
+                let r = {
+                    let in_refs: Vec<&[u8]> = sub.ins.iter().map(|b| &b[..]).collect();
+                    let mut out_refs: Vec<&mut [u8]> = sub.outs.iter_mut().map(|b| &mut b[..]).collect();
+                    unsafe { queue.pop_used(t, &in_refs, &mut out_refs) }
+                };
+                let post = out_digest(&sub.outs);
+                with_world(|w| {
+                    w.cur_q = None;
+                    w.cur_bufs.clear();
+                    match &r {
+                        Ok(len) => w.qev(q, json!({"e":"PopRet","ok":true,"len":len,"outdg":post})),
+                        Err(e) => w.qev(q, json!({"e":"PopRet","ok":false,"err":err_name(*e)})),
+                    }
+                });
+            }
+            if held.is_empty() {
+                let target = bases[next_base];
+                next_base += 1;
+                with_world(|w| w.muted = true);
+                let mut b = [0u8; 4];
+                loop {
+                    let cur = with_world(|w| w.dev_avail_idx(q));
+                    if cur == target { break; }
+                    let tok = unsafe { queue.add(&[], &mut [&mut b[..]]) }.expect("fast-forward add");
+                    sched.borrow_mut().drain();
+                    unsafe { queue.pop_used(tok, &[], &mut [&mut b[..]]) }.expect("fast-forward pop");
+                }
+                let _ = queue.should_notify();
+                with_world(|w| {
+                    w.muted = false;
+                    let idx = w.dev_avail_idx(q);
+                    let ue = w.dev_used_event(q);
+                    let af = w.dev_avail_flags(q);
+                    let (uf, ae) = w.dev_used_fields(q);
+                    w.qev(q, json!({"e":"Skip","idx":idx,"used_event":ue,"avail_flags":af,"used_flags":uf,"avail_event":ae,"last_checked":idx}));
+                });
+            }
+        }
         i += 1;
         let roll: u32 = rng.gen_range(0..100);
         let outstanding = held.len();
+        // in notify mode: more should_notify calls and avail_event moves, batches of adds in between
+        let roll = if notify_mode && roll >= 60 { if roll < 80 { 91 } else if roll < 95 { 96 } else { roll } } else { roll };
         let want_add = if wrap { outstanding == 0 || (outstanding < p.n && roll < 30) } else { roll < 40 };
         if want_add {
             // ---- add
@@ -337,7 +397,7 @@ pub fn run(p: &VqParams, sc: &str) -> VqOutcome {
             96..=97 => {
                 // the device moves its avail_event somewhere around the driver's index
                 let idx = with_world(|w| w.dev_avail_idx(q));
-                let v = idx.wrapping_add(rng.gen_range(0..8u16)).wrapping_sub(4);
+                let v = if rng.gen_bool(0.9) { idx.wrapping_add(rng.gen_range(0..10u16)).wrapping_sub(5) } else { rng.r#gen::<u16>() };
                 with_world(|w| w.dev_set_avail_event(q, v));
             }
             _ => {
